@@ -254,7 +254,7 @@ func InsideLines(src []byte) map[int]bool {
 			break
 		}
 		if (tok == token.STRING || tok == token.COMMENT) && strings.Contains(lit, "\n") {
-			l0 := file.Line(pos)
+			l0 := file.PositionFor(pos, false).Line // physical line (ignore //line directives)
 			n := strings.Count(lit, "\n")
 			for i := 1; i <= n; i++ {
 				inside[l0+i] = true
@@ -323,7 +323,7 @@ func Skeleton(src []byte) []string {
 		if tok == token.SEMICOLON && lit == "\n" {
 			continue
 		}
-		l := file.Line(pos)
+		l := file.PositionFor(pos, false).Line
 		n := 0
 		if tok == token.COMMENT || tok == token.STRING {
 			n = strings.Count(lit, "\n")
